@@ -99,6 +99,9 @@ func runProp[C any](t *testing.T, rec *evid.Recorder, kind string, checks int, g
 		defer rec.Flush(kind)
 		rapid.Check(t, func(rt *rapid.T) {
 			c := gen(rt)
+			if rec.JournalAll() {
+				rec.Journal(kind, c)
+			}
 			f := safely(check, c)
 			if f != nil {
 				if rec.Known(f) {
@@ -128,6 +131,7 @@ func runEnum[C any](t *testing.T, rec *evid.Recorder, kind string, cases func(yi
 	}
 	seen := map[string]bool{}
 	cases(func(c C) bool {
+		rec.Journal(kind, c)
 		if f := safely(check, c); f != nil {
 			if rec.Known(f) {
 				return true
